@@ -512,6 +512,14 @@ theorem stream_reader_complete_partial (I : Inner) (given : Option Name) (force 
     readAll I given force cs = oneShot I given force cs.flatten :=
   readAll_complete I given force cs hstart hpend
 
+/-- T7.7 with the exception: `read()` of the CSS stream reader raises iff the inner decoder of the encoding the
+reader settles on raises on the whole data read, taken as non-final data (no encoding settled: never) — for every
+way the stream hands out the bytes; otherwise it returns `readAll`. Data that only ENDS inside a character
+never raises (no `final` in the stream API), where one-shot `decode` does. -/
+theorem stream_reader_errors (I : Inner) (given : Option Name) (force : Bool) (cs : List (List Nat)) :
+    readAllE I given force cs = if rerr given force cs.flatten then none else some (readAll I given force cs) :=
+  readAllE_eq I given force cs
+
 /-- T7.7 (writer): for every chunking of the text what the stream writer has written is a prefix of one-shot
 `encode` … -/
 theorem stream_writer_prefix (I : InnerEnc) (given : Option Name) (cs : List (List Nat)) :
@@ -635,5 +643,7 @@ example : lookupName (cps' "UTF-16BE") = some (.plain .u16be) ∧
 example : oneShot cpyInner none true (encodeOneShot cpyInnerEnc (some (cps' "UTF-16BE")) (prefix10 ++ [0x78, 0x22, 0x3B, 0xE9])) =
     prefix10 ++ cps' "utf-16-be" ++ [0x22, 0x3B, 0xE9] := by decide
 example : ¬ Agree .u16 ([[0x61], [0]] : List (List Nat)).flatten := by decide
+example : readAllE cpyInner none true [[0x61], [0xFF]] = none ∧ readAllE cpyInner none true [[0x61], [0xC3]] = some [0x61] := by
+  decide
 
 end CssVerif.C07
